@@ -63,6 +63,7 @@ class Job:
         self.expect = kv.get("expect", "")            # obligation classes that must be present
         self.harness = "h_" + self.name
         self.native = kv.get("native", "1") == "1"    # native replay possible
+        self.partial = kv.get("partial", "0") == "1"  # unwinding ASSUMPTIONS instead of assertions: a bounded stand-in (bounded= must say so)
 
     def files(self):
         return [self.path]
@@ -198,7 +199,7 @@ def cbmc_cmd(job, gb, trace=False, prop=None):
                         us.append(l + ":" + rest[2:])
             else:
                 us.append(f + "." + rest)
-        cmd += ["--unwindset", ",".join(us), "--unwinding-assertions"]
+        cmd += ["--unwindset", ",".join(us), "--no-unwinding-assertions" if job.partial else "--unwinding-assertions"]
     if job.unwind:
         cmd += ["--unwind", job.unwind, "--unwinding-assertions"]
     if job.solver in ("z3", "cvc5"):
